@@ -422,8 +422,10 @@ func (s *Sim) grantable(t *Task, kind int, key any, aux any, ts []*Task) bool {
 		if l.writer != nil {
 			return false
 		}
-		// writer preference of sync.RWMutex: a pending Lock blocks new readers.
-		return !s.writerWaiting(key, ts)
+		// writer preference of sync.RWMutex: a pending Lock blocks new readers.  A task parked before its Lock
+		// call only counts as pending while readers hold the lock (it would be inside Lock, waiting); while
+		// the lock is free it has not called Lock yet, and a reader may still get in first.
+		return len(l.readers) == 0 || !s.writerWaiting(key, ts)
 	case rqCondWait:
 		if !t.signaled {
 			return false
